@@ -90,7 +90,11 @@ def build(rng, lazy):
     # (a degenerate one above all) keeps a record only if the stored value really lies inside it
     floaty = rng.random() < 0.5
 
+    wide = rng.random() < 0.5          # values beyond the "whole globe": negative, above 360, above 90
+
     def cell():
+        if wide and rng.random() < 0.4:
+            return (float if floaty else int)(rng.choice([-5, -95, 365, 95, 400, -185]))
         v = rng.randint(0, 6) * 5
         if floaty:
             return float(v) + (rng.choice([0, 0, 4e-6, -4e-6]) if v else 0.0)
@@ -304,11 +308,15 @@ def main():
         colnames = [c for c, _ in cols]
         # every column that carries an axis attribute (in either letter case) is bounded by that axis' interval
         axis_cols = [(colnames.index(c), ax.upper()) for c, ax in cols if ax]
-        for _ in range(6):
+        for bi in range(6):
             b = {}
             for ax in "XYZ":
                 lo = rng.randint(-1, 6) * 5
                 hi = lo if rng.random() < 0.35 else lo + rng.randint(0, 4) * 5
+                if rng.random() < 0.2:
+                    lo, hi = rng.choice([(0, 360), (-90, 90), (-180, 180), (0, 359)])     # the extents a GrADS client sends
+                if bi == 0 and ax in "XY":
+                    lo, hi = {"X": (0, 360), "Y": (-90, 90)}[ax]      # the whole globe - which some records may lie beyond
                 b[ax] = (lo, hi)
             stats["bounds_calls"] += 1
             stats["lazy_bounds"] += lazy
